@@ -1,0 +1,16 @@
+'''
+Verification hook (inactive unless the environment variable PYVSC_VERIF=1 is set).
+
+External verification harnesses register listeners here to observe the model
+that a randomize call is about to solve. With the guard off, `enabled` is
+False and the single call site in Randomizer.do_randomize is skipped.
+'''
+import os
+
+enabled = (os.environ.get("PYVSC_VERIF", "") == "1")
+
+listeners = []
+
+def emit(kind, **payload):
+    for l in list(listeners):
+        l(kind, payload)
